@@ -17,7 +17,7 @@ ANCHORS = ["timestep/reset_initial_conditions.py", "timestep/update_time.py",
            "initialize/read_model_initial_conditions.py"]
 RULE = ("multi-season runs (2-4 seasons, off-season not simulated) over every irrigation strategy "
         "(net irrigation from a dry start so that pre-irrigation acts), bunds with initial ponding, "
-        "water tables, thermal crops, CO2 varying by year; for every season k >= 1 a partner run with "
+        "water tables, thermal crops (degree-day methods 1-3, cold nights, warm and cool years), CO2 varying by year or constant with a user-supplied reference; for every season k >= 1 a partner run with "
         "the same inputs started on that season's planting date; non-trivial = a compared season "
         "with >= 30 in-season days; distinct = (spec digest, k)")
 ASSUMPTIONS = [
